@@ -98,7 +98,14 @@ def generated_states(seed, n):
                             else:
                                 p = np.array([rng.uniform(0, 3e3) * f
                                               for _ in range(nd * reg.n_duct)])
+                            # the same heating array handed to the wall
+                            # solve twice: the second solve is for the same
+                            # heating as the first
+                            rec.p_truth = (None if p is None
+                                           else np.array(p, copy=True))
                             reg._calc_duct_temp(p, tg, hg, adia)
+                            reg._calc_duct_temp(p, tg, hg, not adia)
+                            rec.p_truth = None
                         else:
                             reg.coolant_params['htc'] = 10 ** rng.uniform(1, 6)
                             reg._calc_duct_temp(tg, hg, adia)
@@ -160,9 +167,6 @@ def run(tier, res, replay=None):
                         [(common.seed() * 100 + i, 12 if tier == 'quick'
                           else 40) for i in range(ngen)]):
             traces += g
-    for t in traces:
-        if t.get('clipped'):
-            raise common.MachineryError(f'flux scale exceeded in {t["label"]}')
     nsh = min(common.NCPU, len(traces))
     shards = [traces[i::nsh] for i in range(nsh)]
     from concurrent.futures import ThreadPoolExecutor
@@ -184,6 +188,11 @@ def run(tier, res, replay=None):
             nslab += n
             res.add_eval(n)
             res.distinct(tr['label'], n > 0)
+            if v == 'accept' and tr.get('clipped'):
+                # a flux beyond the scale of the projection in a trace that
+                # was nevertheless accepted: the evaluation proves nothing
+                raise common.MachineryError(
+                    f'flux scale exceeded in {tr["label"]}')
             if v != 'accept':
                 clauses = [c.strip('" ') for c in info.strip('{}').split(',')
                            if c.strip()]
